@@ -8,6 +8,8 @@ CONSTANTS
   AllowCancel = TRUE
   AllowSpurious = TRUE
   FileLayer = FALSE
+  SilentRelease = FALSE
+  ForgetsHandle = FALSE
 SPECIFICATION FairSpec
 INVARIANTS Safe
 PROPERTIES Live
